@@ -13,6 +13,11 @@ MCDayStepsUntil == 731
 \* thorough: every one of the 2 958 466 days is a state
 BigDayStepsUntil == 2958466
 
+\* quick: start the calendar machine in every century as well (the runs merge)
+MCCalSeeds == {0} \cup {DateSerial(1900 + 100 * c, 1, 1) : c \in 1..80}
+BigCalSeeds == {0}
+MCSplitChains == TRUE
+
 \* DATE: month and day arguments -40..60 as the property quantifies
 MCArgLo == -40
 MCArgHi == 60
